@@ -1078,8 +1078,16 @@ def avro_foreign_run(impl, workdir, schema_fields, rows, tagno):
     import fastavro
     from flow.record.adapter.avro import AvroReader
     path = os.path.join(workdir, "foreign%d.avro" % tagno)
+    def spell(t, sp):
+        if not isinstance(t, str):
+            return [t, {"type": "null"}]
+        other = "string" if t != "string" else "long"
+        return {"last": [t, "null"], "first": ["null", t], "middle": [t, "null", other], "first3": ["null", t, other],
+                "bare": t}[sp]
+    spelling = {f[0]: (f[2] if len(f) > 2 else "last") for f in schema_fields}
+    schema_fields = [(f[0], f[1]) for f in schema_fields]
     schema = {"type": "record", "namespace": "foreign.ns", "name": "rec%d" % tagno,
-              "fields": [{"name": n, "type": [t, "null"] if isinstance(t, str) else [t, {"type": "null"}]} for n, t in schema_fields]}
+              "fields": [{"name": n, "type": spell(t, spelling[n])} for n, t in schema_fields]}
     with open(path, "wb") as fh:
         fastavro.writer(fh, fastavro.parse_schema(schema), rows)
     flowtype = {a: f for a, f, _ in AVRO_ORDINARY}
@@ -1090,7 +1098,10 @@ def avro_foreign_run(impl, workdir, schema_fields, rows, tagno):
     try:
         rd = AvroReader(path)
     except Exception as e:  # noqa: BLE001
-        return None if want is None or not all(ident(n) for _, n in want) else ("refused", e)
+        if want is None or not all(ident(n) for _, n in want):
+            return None
+        return "a well-formed Avro file of a standard writer (schema %r) cannot be opened: %s: %s" % (
+            [f["type"] for f in schema["fields"]], type(e).__name__, e)
     try:
         d = rd.desc
         if want is None:
@@ -1131,6 +1142,13 @@ def avro_foreign_cases(ctx, impl, thorough):
     cases.append([("_source", "string"), ("a", "string"), ("_version", "long"), ("b", "long"), ("_generated", AVRO_RESERVED["_generated"][0]), ("c", "boolean")])
     cases.append([("a", "string"), ("_source", "string"), ("_classification", "string"), ("b", "long")])
     cases.append([("_source", "string")])
+    # union spellings: null first / last / in the middle of three / first of three / bare type, for every mappable type
+    for a, f, _v in AVRO_ORDINARY:
+        if f is None:
+            continue
+        for sp in ("first", "last", "middle", "first3", "bare"):
+            cases.append([("u", a, sp)])
+            cases.append([("k", "string", "last"), ("u", a, sp), ("_source", "string"), ("w", "long", "first")])
     cases.append([("a", "string"), ("bad", "double")])
     cases.append([("a", "string"), ("a-b", "long")])
     for _ in range(300 if thorough else 40):
@@ -1147,15 +1165,18 @@ def avro_foreign_cases(ctx, impl, thorough):
         rows = []
         for i in range(3):
             row = {}
-            for n, t in fs:
-                if n in AVRO_RESERVED:
+            for f_ in fs:
+                n, t = f_[0], f_[1]
+                if len(f_) > 2 and f_[2] != "bare" and i == 2:
+                    row[n] = None
+                elif n in AVRO_RESERVED:
                     row[n] = AVRO_RESERVED[n][1][i]
                 elif n.startswith("_"):
                     row[n] = "h%d" % i
                 else:
                     row[n] = vals[t][i] if vals.get(t) else 1.0
             rows.append(row)
-        ctx.count_case(("avro-foreign", tuple((n, json.dumps(t)) for n, t in fs)))
+        ctx.count_case(("avro-foreign", tuple((f_[0], json.dumps(f_[1]), f_[2] if len(f_) > 2 else "") for f_ in fs)))
         try:
             v = avro_foreign_run(impl, workdir, fs, rows, no)
         except Exception as e:  # noqa: BLE001 -- the standard writer itself refused the case
@@ -1163,8 +1184,8 @@ def avro_foreign_cases(ctx, impl, thorough):
         if isinstance(v, tuple):
             continue              # refused although well-formed: allowed (over-rejection)
         if v:
-            return ("%s (Avro schema fields %r)" % (v, [n for n, _ in fs]),
-                    dict(kind="avro-foreign", fields=[[n, t] for n, t in fs], violation=v))
+            return ("%s (Avro schema fields %r)" % (v, [list(f_) for f_ in fs]),
+                    dict(kind="avro-foreign", fields=[list(f_) for f_ in fs], violation=v))
     return None
 
 
@@ -1497,15 +1518,16 @@ def replay(obj):
             return 1 if v else 0
         if kind == "avro-foreign":
             import tempfile
-            fs = [(n, t) for n, t in obj["fields"]]
+            fs = [tuple(x) for x in obj["fields"]]
             vals = {a: v for a, _, v in AVRO_ORDINARY}
-            rows = [{n: (AVRO_RESERVED[n][1][i] if n in AVRO_RESERVED else "h%d" % i if n.startswith("_") else (vals[t][i] if vals.get(t) else 1.0))
-                     for n, t in fs} for i in range(3)]
+            rows = [{f_[0]: (None if len(f_) > 2 and f_[2] != "bare" and i == 2 else AVRO_RESERVED[f_[0]][1][i] if f_[0] in AVRO_RESERVED
+                             else "h%d" % i if f_[0].startswith("_") else (vals[f_[1]][i] if vals.get(f_[1]) else 1.0))
+                     for f_ in fs} for i in range(3)]
             os.makedirs("/verif/.work", exist_ok=True)
             with tempfile.TemporaryDirectory(dir="/verif/.work") as td:
                 v = avro_foreign_run(impl, td, fs, rows, 0)
             v = None if isinstance(v, tuple) else v
-            print("replay: Avro schema fields %r -> %s" % ([n for n, _ in fs], v or "property holds"))
+            print("replay: Avro schema fields %r -> %s" % ([list(f_) for f_ in fs], v or "property holds"))
             return 1 if v else 0
         if kind == "text-definition":
             text, route = obj["text"], obj["route"]
